@@ -159,6 +159,9 @@ type RequestErrWriteTimeout struct {
 	Received    int
 	BlockFor    int
 	WriteType   string
+	// Contentions is the number of contentions that occurred during the CAS operation
+	// (protocol v5, write type "CAS" only).
+	Contentions uint16
 }
 
 type RequestErrWriteFailure struct {
